@@ -266,7 +266,13 @@ def t1(prog: Program, chk: Check) -> None:
              "control dependent on a condition that data-depends on the current step AND on "
              "the target, evaluated before the call (range(target-step), while step < target, "
              "or a guard at the top of the callee)", floor=5)
+    guarded_stepping(prog, chk, "T1")
+
+
+def guarded_stepping(prog: Program, chk: Check, rule: str, only: Optional[Set[str]] = None) -> None:
     for q, (step_calls, targets) in FRONT_ENDS.items():
+        if only is not None and q not in only:
+            continue
         u = prog.unit(q)
         du = DefUse(u, CFG(u.node, exc_edges=False))
         g = du.cfg
@@ -274,12 +280,12 @@ def t1(prog: Program, chk: Check) -> None:
         sites = [c for c in walk_local(u.node) if isinstance(c, ast.Call)
                  and dotted(c.func) in step_calls]
         if not sites:
-            raise AnalysisError(f"T1: no stepping call {sorted(step_calls)} in {q}")
+            raise AnalysisError(f"{rule}: no stepping call {sorted(step_calls)} in {q}")
         tsrc = set(targets)
         for c in sites:
             nid = du.node_of(c)
             ok, why = _guarded(prog, u, du, c, nid, tsrc)
-            chk.add("T1", u, f"{norm(c.func)}()", ok, why, c)
+            chk.add(rule, u, f"{norm(c.func)}()", ok, why, c)
 
 
 _RET_DEPS: Dict[str, Set[str]] = {}
@@ -624,6 +630,115 @@ def t7(prog: Program, chk: Check) -> None:
             "every one is reset by all writers of its sources" if not gc else "see violations")
 
 
+def t8(prog: Program, chk: Check) -> None:
+    chk.rule("T8", "a front-end compute() changes the computational state only through its guarded "
+             "stepping: every call in it that writes persistent state of the object or its back "
+             "end (effect summaries of the callees) is control dependent on a condition over the "
+             "current step and the target, or on a run-once test (`<attribute> is None`) - an "
+             "operation applied after the loop 'to complete the last step' is applied again by "
+             "the next compute() / restart, so splitting or repeating calls changes the result",
+             floor=5)
+    eff = Effects(prog, chk)
+    by_name: Dict[str, List[Unit]] = {}
+    for c_ in prog.classes.values():
+        for mname, mu_ in c_.methods.items():
+            by_name.setdefault(mname, []).append(mu_)
+    memo: Dict[str, Optional[str]] = {}
+
+    def mutation(mu: Unit, depth: int = 0) -> Optional[str]:
+        """What persistent state a method changes (its own attributes, or an object held in
+        one of them through a method that changes that object), or None."""
+        if mu.qual in memo:
+            return memo[mu.qual]
+        memo[mu.qual] = None
+        if depth > 5:
+            return None
+        out = None
+        ci_ = prog.class_of_unit(mu)
+        for st in walk_local(mu.node):
+            if isinstance(st, ast.stmt):
+                w = [t for t in _self_store_targets(st) if not t.startswith("self._dynamics")]
+                if w:
+                    out = out or w[0]
+            if not isinstance(st, ast.Call):
+                continue
+            mc_ = method_call(st)
+            if not mc_:
+                continue
+            if mc_[0] == "self" and ci_ is not None:
+                m2 = prog.find_method(ci_, mc_[1])
+                if m2 is not None and m2.qual != mu.qual:
+                    r = mutation(m2, depth + 1)
+                    if r:
+                        out = out or r
+            elif mc_[0].startswith("self.") and mc_[0].count(".") == 1:
+                if mc_[1] in MUTATORS:
+                    out = out or mc_[0]
+                else:
+                    for m2 in by_name.get(mc_[1], []):
+                        if prog.class_of_unit(m2) is ci_:
+                            continue
+                        if mutation(m2, depth + 1):
+                            out = out or f"{mc_[0]} (through {mc_[1]}())"
+                            break
+        memo[mu.qual] = out
+        return out
+
+    for q, (step_calls, targets) in FRONT_ENDS.items():
+        u = prog.unit(q)
+        du = DefUse(u, CFG(u.node, exc_edges=False))
+        chk.saw(u, du.cfg)
+        ci = prog.class_of_unit(u)
+        n = 0
+        for nd in du.cfg.nodes:
+            if nd.copy_of:
+                continue
+            for c in nd.calls():
+                fn = dotted(c.func) or ""
+                if not fn.startswith("self."):
+                    continue
+                mc = method_call(c)
+                what = None
+                if mc and mc[0] == "self" and ci is not None:
+                    mu = prog.find_method(ci, mc[1])
+                    if mu is None:
+                        continue
+                    s_ = eff.summary(mu)
+                    writes = sorted(w for w in s_["W_all"] if not w.startswith("self._dynamics")
+                                    and "progress" not in w)
+                    deep = mutation(mu)
+                    if not writes and not deep:
+                        continue
+                    what = f"writes {writes[:3]}" if writes else f"changes {deep}"
+                elif mc and (mc[1] in EFFECTFUL_CALLS or mc[1] in MUTATORS):
+                    if mc[0].startswith("self._dynamics") or "prog" in mc[0]:
+                        continue        # recording results / progress display
+                    what = f"{mc[1]}() on {mc[0]}"
+                else:
+                    continue
+                n += 1
+                if fn in step_calls:
+                    continue            # judged by T1
+                ok, why = _guarded(prog, u, du, c, nd.id, set(targets))
+                if not ok:
+                    for (t, br) in branch_context(u.node, c):
+                        for x in ast.walk(t):
+                            if isinstance(x, ast.Compare) and len(x.ops) == 1 and \
+                                    isinstance(x.comparators[0], ast.Constant) and \
+                                    x.comparators[0].value is None and \
+                                    (dotted(x.left) or "").startswith("self."):
+                                is_none = isinstance(x.ops[0], (ast.Is, ast.Eq))
+                                if is_none == br:
+                                    ok, why = True, f"run once: under `{norm(t)}`"
+                chk.add("T8", u, f"{norm(c.func)}(..): {what}", ok,
+                        why if ok else
+                        "this call changes the state of the computation on every compute() call, "
+                        "whatever the current step and the target: compute(k); compute(T) and "
+                        "compute(T) differ (and a repeated compute(T) changes the object)", c)
+        if n < 1:
+            raise AnalysisError(f"T8: no state-changing call found in {q}")
+
+
 def run(prog: Program, chk: Check) -> None:
     chk.explanation = (
         "Decides continuation / idempotence guards of the five method objects (T1), idempotent "
@@ -644,3 +759,4 @@ def run(prog: Program, chk: Check) -> None:
     chk.call(t3, prog, chk)
     chk.call(t4, prog, chk)
     chk.call(t7, prog, chk)
+    chk.call(t8, prog, chk)
